@@ -9,14 +9,14 @@ import common as C
 
 PID = "C12"
 DRIVER = [("C12", "TfPwaV.Model.WignerF", "WignerF.handle"), ("C12s", "TfPwaV.Gen.SU2F", "SU2F.handle")]
-LEAN_TARGETS = ["TfPwaV.Props.C12", "TfPwaV.Props.C12b", "TfPwaV.Props.C12c", "TfPwaV.Gen.SU2F"]
-PROP_MODULES = ["TfPwaV.Props.C12", "TfPwaV.Props.C12b", "TfPwaV.Props.C12c"]
+LEAN_TARGETS = ["TfPwaV.Props.C12", "TfPwaV.Props.C12b", "TfPwaV.Props.C12c", "TfPwaV.Props.C12d", "TfPwaV.Gen.SU2F"]
+PROP_MODULES = ["TfPwaV.Props.C12", "TfPwaV.Props.C12b", "TfPwaV.Props.C12c", "TfPwaV.Props.C12d"]
 ALL_MODULES = ["TfPwaV.Model.Wigner", "TfPwaV.Proofs.Wigner", "TfPwaV.Proofs.WignerU7", "TfPwaV.Proofs.WignerU8",
-               "TfPwaV.Props.C12", "TfPwaV.Proofs.SU2", "TfPwaV.Props.C12b", "TfPwaV.Props.C12c"] + ["TfPwaV.Proofs.CgOrtho" + k for k in "ABCDEFG"]
+               "TfPwaV.Props.C12", "TfPwaV.Proofs.SU2", "TfPwaV.Props.C12b", "TfPwaV.Props.C12c", "TfPwaV.Props.C12d", "TfPwaV.Proofs.ZHom", "TfPwaV.Proofs.DHom"] + ["TfPwaV.Proofs.CgOrtho" + k for k in "ABCDEFG"]
 ASSUMPTIONS = [
     "float table entries are compared with the exact model value sign*sqrt(q) at relative 1e-13 (a wrong factorial, sign or index changes an entry by >= 1e-2 relative)",
     "sympy's CG(...).doit().evalf() is the run-time path of cg_coef; it is compared with the exact Racah value, sympy itself is not verified",
-    "D(R1)D(R2)=D(R1R2) is validated numerically on the implementation (search), not proved in Lean; the Euler-angle round trip IS proved for every element of SU(2) (euler_roundtrip) on the real-pair model of SU2M, which is compared with the real class on every run",
+    "D(R1)D(R2)=D(R1R2) is a theorem for every 2j<=8 (D_hom_su2: if the SU2M rotations Rz(a)Ry(b)Rz(g) compose, the D_matrix_conj matrices built from the modelled weights compose; the underlying polynomial-representation homomorphism Z_hom and the identification of the weights with it hold for every N) and is re-checked numerically on the implementation in exactly that form; the Euler-angle round trip IS proved for every element of SU(2) (euler_roundtrip) on the real-pair model of SU2M, which is compared with the real class on every run",
     "that a rotation-boost-rotation product of the kinematics is unitary (a pure Wigner rotation) is a kinematic fact outside this model; euler_roundtrip takes membership in SU(2) as its hypothesis",
 ]
 
@@ -305,22 +305,21 @@ def search(ctx, res):
         if err[i] > 1e-6:
             res.fail("su2:euler-roundtrip", "Euler angles of an SU(2) product do not reproduce it (%s): residual %.3g" % (tag, err[i]),
                      {"op": "euler", "angles1": [a[i], b[i], g[i]], "angles2": [a2[i], b2[i], g2[i]]})
-        for N in (1, 2, 3, 4):
-            # code convention: D_matrix_conj(alpha,beta,gamma) corresponds to Rz(gamma')... check homomorphism in the
-            # form the library relies on: D*(R12) = D*(R2-angles) composed with D*(R1-angles) in one fixed order
-            DA = _D(dfun, tf, a, b, g, N)
-            DB = _D(dfun, tf, a2, b2, g2, N)
-            D12 = _D(dfun, tf, ea, eb, eg, N)
+        # theorem D_hom_su2 (Props/C12d.lean), stated exactly: with R(al,be,ga) = Rz(al) Ry(be) Rz(ga) (SU2M),
+        # R(e12) = R(e1) R(e2)  =>  D_matrix_conj(e12) = D_matrix_conj(e1) . D_matrix_conj(e2)   -- same sheet, fixed order.
+        # Here R1 = Rz(g)Ry(b)Rz(a) = R(g,b,a), R2 = R(g2,b2,a2), and get_euler_angle(R1 R2) = (ea,eb,eg) rebuilds
+        # Rz(eg)Ry(eb)Rz(ea) = R(eg,eb,ea) = R1 R2.
+        for N in ((1, 2, 3, 4) if (ctx.quick and not ctx.suspect) else (1, 2, 3, 4, 5, 6, 7, 8)):
+            DA = _D(dfun, tf, g, b, a, N)
+            DB = _D(dfun, tf, g2, b2, a2, N)
+            D12 = _D(dfun, tf, eg, eb, ea, N)
             c1 = np.einsum("nij,njk->nik", DA, DB)
-            c2 = np.einsum("nij,njk->nik", DB, DA)
             e1 = np.abs(c1 - D12).max(axis=(1, 2))
-            e2 = np.abs(c2 - D12).max(axis=(1, 2))
-            if N % 2 == 1:  # double cover sign
-                e1 = np.minimum(e1, np.abs(c1 + D12).max(axis=(1, 2)))
-                e2 = np.minimum(e2, np.abs(c2 + D12).max(axis=(1, 2)))
-            err = np.minimum(e1.max(), e2.max())
-            if err > 1e-6:
-                res.fail("D:homomorphism", "D(R1)D(R2) != D(R1R2) for 2j=%d: residual %.3g" % (N, err), {"op": "hom", "N": N})
+            # beta = acos(.) loses half the digits at beta = 0, pi: tolerance 1e-6
+            i = int(np.argmax(e1))
+            if e1[i] > 1e-6:
+                res.fail("D:homomorphism", "D(R1)D(R2) != D(R1R2) for 2j=%d: residual %.3g at angles1=%r angles2=%r" % (
+                    N, e1[i], (g[i], b[i], a[i]), (g2[i], b2[i], a2[i])), {"op": "hom", "N": N})
     # rotation-boost-rotation products composing to a pure rotation:  B(-w) R B(w) with R about z commutes -> pure rotation
     w = rng.uniform(0.1, 2.0, n)
     Rz = SU2M.Rotation_z(tfc(a))
@@ -368,7 +367,7 @@ def replay(ctx, payload):
 
 
 MANIFEST = {
-    "text": "Lean theorems: for every spin 2j<=8, all m,m' and ALL real beta (incl. 0 and pi) the small-d matrix built from the modelled weights is orthogonal (d_unitary), via a kernel-checked homogeneous polynomial identity valid for all real s,c (z_poly_unitary) lifted to the reals; Clebsch-Gordan coefficients by Racah's closed form with kernel-checked exact orthonormality over the whole 2j<=8 grid, integer and half-integer (cg_orthonormal); SU2M algebra (associativity, det multiplicative, inv is the two-sided inverse for det 1, Rz/Ry/Bz have det 1) and the Euler-angle round trip Rz(gamma)Ry(beta)Rz(alpha) = U for EVERY U in SU(2) incl. beta = 0, pi (euler_roundtrip). The model's weights/CG values are compared entry by entry with small_d_weight, small_d_matrix, D_matrix_conj, cg_coef (sympy path) and the bundled cg_table on every run.",
-    "note": "Model = TfPwaV.Wigner (exact Rat/Int). Tie = line-protocol comparison of every table entry and of matrix elements on edge+random angles. templates/SU2.lean.in (real-pair transcription of SU2M) compared op by op with the real class. D(R1)D(R2)=D(R1R2) and unitarity of rotation-boost-rotation products are validated on the implementation (search), not proved. Trusted: Lean kernel, standard axioms, sympy CG evaluation, libm.",
+    "text": "Lean theorems: for every spin 2j<=8, all m,m' and ALL real beta (incl. 0 and pi) the small-d matrix built from the modelled weights is orthogonal (d_unitary), via a kernel-checked homogeneous polynomial identity valid for all real s,c (z_poly_unitary) lifted to the reals; Clebsch-Gordan coefficients by Racah's closed form with kernel-checked exact orthonormality over the whole 2j<=8 grid, integer and half-integer (cg_orthonormal); SU2M algebra (associativity, det multiplicative, inv is the two-sided inverse for det 1, Rz/Ry/Bz have det 1) the Euler-angle round trip Rz(gamma)Ry(beta)Rz(alpha) = U for EVERY U in SU(2) incl. beta = 0, pi (euler_roundtrip); and D(R1)D(R2) = D(R1R2) for every 2j<=8 and all angles (D_hom_su2). The model's weights/CG values are compared entry by entry with small_d_weight, small_d_matrix, D_matrix_conj, cg_coef (sympy path) and the bundled cg_table on every run.",
+    "note": "Model = TfPwaV.Wigner (exact Rat/Int). Tie = line-protocol comparison of every table entry and of matrix elements on edge+random angles. templates/SU2.lean.in (real-pair transcription of SU2M) compared op by op with the real class. Unitarity of rotation-boost-rotation products (a kinematic fact) is validated on the implementation (search), not proved. Trusted: Lean kernel, standard axioms, sympy CG evaluation, libm.",
     "technique": "Lean 4 proof (kernel-evaluated exact polynomial/rational identities lifted to the reals) + exhaustive table correspondence with the implementation",
 }
